@@ -131,6 +131,7 @@ struct JSON {
                 }
 
                 value.Reset();
+                offset = length;
             }
 
             ++offset;
@@ -168,6 +169,7 @@ struct JSON {
                 }
 
                 value.Reset();
+                offset = length;
             }
 
             ++offset;
